@@ -8,7 +8,7 @@ python3 - <<'PY'
 import sys
 sys.path.insert(0, '.')
 from vt import build
-for layer in ('rel', 'dbg', 'rel:api'):
+for layer in ('rel', 'dbg', 'rel:api', 'unst'):
     build.ensure(layer, quiet=False)
 from vt import selftest
 selftest.main()
